@@ -482,7 +482,7 @@ def family_cells(ctx, rng, configs):
             for ob in ((), (2,)):
                 if bcls == "BatchRepeat" and ob:
                     continue
-                kinds = ["mat", "left", "vec", "bcast", "leftvec"] if not ob else ["mat", "bat", "leftbat", "left", "bcast"]
+                kinds = ["mat", "left", "vec", "leftvec"] if not ob else ["mat", "leftbat", "left", "bcast"]
                 if bcls == "BatchRepeat":
                     kinds = ["mat", "left", "vec", "bat", "leftvec"]
                 if not ctx.quick:
@@ -497,7 +497,7 @@ def family_cells(ctx, rng, configs):
                     add("factor", "CholOf", kw, n, ob, kind, st, KAPPAS[(bi + ki) % len(KAPPAS)], via=via)
                 # the factor as the triangular system it is: F.solve(B[, L])
                 if bcls != "BatchRepeat":      # (Triangular over BatchRepeat: covered by TriRepeat and its listed defects)
-                    for kind in (["mat", "left"] if ctx.quick else ["vec", "mat", "bat", "left"]):
+                    for kind in ((["mat", "left"] if not ob else ["mat"]) if ctx.quick else ["vec", "mat", "bat", "left"]):
                         add("factor", "FactorTri", kw, n, ob, kind, CHOL, KAPPAS[(bi + int(up)) % len(KAPPAS)], via="solve")
 
     # ---------------- (b) batches whose members differ in conditioning (Cholesky path)
